@@ -54,6 +54,7 @@ type c06Case struct {
 	Globals    string     `json:"globals,omitempty"`
 	Reader     *c06Reader `json:"reader,omitempty"`
 	Shrink     []string   `json:"shrink_strings,omitempty"`
+	NsPerStep  int64      `json:"ns_per_step,omitempty"` // speed of the simulated machine (0 = default)
 }
 
 type c06Obs struct {
@@ -176,7 +177,7 @@ func c06Exec(cs *c06Case, cc *sut.Compiled) (*wk.Failure, c06Obs) {
 			}
 		}
 	}
-	res := simrt.Run(simrt.Config{Budget: C06Budget}, body)
+	res := simrt.Run(simrt.Config{Budget: C06Budget, NsPerStep: cs.NsPerStep}, body)
 	obs.steps = res.Steps
 	mk := func(class, site, detail string) *wk.Failure {
 		b, _ := json.Marshal(cs)
@@ -385,7 +386,7 @@ func C06(c *wk.Ctx) {
 					if e.Data >= len(gc.Data) {
 						continue
 					}
-					base := c06Case{What: "render", Bundle: gc, Obligatory: oblig, Entry: e, Cat: -1, API: []string{"execute", "execute", "render", "execute-noij"}[r.Intn(4)]}
+					base := c06Case{What: "render", Bundle: gc, Obligatory: oblig, Entry: e, Cat: -1, API: []string{"execute", "execute", "render", "execute-noij"}[r.Intn(4)], NsPerStep: simrt.SpeedFor(r.Uint64())}
 					if r.Intn(2) == 0 && base.API != "render" {
 						base.Cat = r.Intn(3)
 					}
@@ -445,7 +446,7 @@ func C06(c *wk.Ctx) {
 				exprs = append(exprs, gen.ChaosExprs[r.Intn(len(gen.ChaosExprs))])
 			}
 			for _, e := range exprs {
-				cs := c06Case{What: "evalexpr", Expr: e, Cat: -1, Shrink: []string{"expr"}}
+				cs := c06Case{What: "evalexpr", Expr: e, Cat: -1, Shrink: []string{"expr"}, NsPerStep: simrt.SpeedFor(r.Uint64())}
 				exec(&cs, nil)
 				u.Counters["evalexpr"]++
 			}
@@ -464,7 +465,7 @@ func C06(c *wk.Ctx) {
 					c06Reader{Chunk: 4, FailAt: -1, EOFAt: -1, StallAt: off + 1})
 			}
 			for i := range readers {
-				cs := c06Case{What: "globals", Globals: g, Reader: &readers[i], Cat: -1, Shrink: []string{"globals"}}
+				cs := c06Case{What: "globals", Globals: g, Reader: &readers[i], Cat: -1, Shrink: []string{"globals"}, NsPerStep: simrt.SpeedFor(uint64(i) + 77)}
 				exec(&cs, nil)
 				u.Counters["globals_parses"]++
 			}
